@@ -148,6 +148,11 @@ def c10_jobs(rng, quick):
 
 
 def wanted(ev, tag):
+    # size choices on which the real Aztec encoder left AztecSel!Select (tools/encconf.py) are encoded with pixels: an explicit request that the
+    # model refuses because the stuffed stream does not fit, but the code accepts, yields a symbol that does not read back - the payload was
+    # not representable in the requested symbol, so that failure is C10's (as well as C03's)
+    if ev.get("tag") == "azsel" and ev.get("res", {}).get("kind") == "ok" and onedim.is_roundtrip(tag):
+        return True
     return tag.startswith("outcome-") or tag in ("reject-representable", "accept-unrepresentable")
 
 
@@ -168,7 +173,7 @@ def run(tier):
     drive = vlib.build_harness(chk.work)
     jobs = c10_jobs(chk.rng, quick)
     for d in encconf.aztec_selection(chk, quick):          # size choices / refusals where the real encoder left AztecSel!Select (tools/encconf.py)
-        jobs.append(gen.enc("aztec", d["content"], tuple(d["p"]), proj="outcome"))
+        jobs.append(gen.enc("aztec", d["content"], tuple(d["p"]), proj="full", tag="azsel"))
     evs, _ = onedim.judge_multi(chk, drive, jobs, wanted, nshards=14 if quick else 16, describe=describe)
     kinds = {}
     for e in evs:
